@@ -72,6 +72,7 @@ def _universe(tier):
         # constructor calls written with positional arguments (hand-written style)
         "DC(1)", "DC(1, 2)", "DC(1, 2, [3])", "NT(1, 2)", "NT(1, b=2)", "NTD(1)", "NTD(1, 2)", "AT(1)", "AT(1, 2, [3])", "defaultdict(list, a=[1])",
         "[NT(1, 2), AT(1)]", "{'k0': NT(1, 3)}",
+        "DC2(x=1)", "DC2(x=1, y=2)", "[DC2(x=1)]", "{'k0': 0, 'k1': 1, 'k0': 2}", "{1: 'i', True: 'b'}", "{'k0': [0], 'k0': [1], 'k1': 2}",
         "DCS(x=1)", "DCS(x=1, y=2)", "DCX(x=1)", "DCX(x=1, w=3)", "[DCS(x=1)]", "ATS(a=1)", "PMS(a=1)", "NTS(a=1, b=2)", "{'k0': DCX(x=1, y=2)}",
         "[Perm.R | Perm.W, Perm(0)]", "[1.5, -1, 2**64]", "['a\\nb', ' a ']", "{(0, 1): 'a'}", "{Color.RED: 0}",
     )]
